@@ -858,6 +858,13 @@ def run(rep):
                 'case is non-trivial when the base array is non-empty and at least one inert row was '
                 'inserted; distinct = distinct (kind, full element list)')
     trials = []
+    try:
+        # the kernels are tiny here: a few threads keep the parallel regions from spinning on a
+        # busy machine (scheduling independence is C18's business)
+        import numba
+        numba.set_num_threads(min(2, numba.config.NUMBA_NUM_THREADS))
+    except Exception:  # noqa: BLE001
+        pass
     for kind, pattern, exact, fams in plan(rep, tier):
         with_inf = rep.rng.random() < 0.3
         try:
